@@ -22,7 +22,7 @@ theorem Gen_import_refines in BHS/Props/ImportGen.lean).
 -/
 import BHS.Model.ImpExp
 import BHS.Gen.Import
-import Driver.Ops.Chain
+import Driver.Ops.ChainFmt
 
 namespace Driver.Ops.ImpExp
 open BHS BHS.Chain BHS.Header BHS.ImpExp
